@@ -27,6 +27,8 @@ struct Args {
     threads: usize,
     child: bool,
     crumb_dir: Option<PathBuf>,
+    /// development aid: run only a libFuzzer campaign (target, seconds) on behalf of <ID>
+    fuzz_only: Option<(String, u64)>,
 }
 
 fn parse_args(args: &[String]) -> Args {
@@ -49,6 +51,7 @@ fn parse_args(args: &[String]) -> Args {
         threads: std::thread::available_parallelism().map(|n| n.get()).unwrap_or(4).min(16),
         child: false,
         crumb_dir: None,
+        fuzz_only: None,
     };
     let mut i = 0;
     while i < args.len() {
@@ -79,6 +82,12 @@ fn parse_args(args: &[String]) -> Args {
             "--crumb-dir" => {
                 i += 1;
                 a.crumb_dir = Some(PathBuf::from(args.get(i).unwrap_or_else(|| usage())));
+            }
+            "--fuzz-only" => {
+                let t = args.get(i + 1).cloned().unwrap_or_else(|| usage());
+                let secs = args.get(i + 2).and_then(|s| s.parse().ok()).unwrap_or_else(|| usage());
+                a.fuzz_only = Some((t, secs));
+                i += 2;
             }
             "--threads" => {
                 i += 1;
@@ -225,6 +234,24 @@ fn child_main(args: Args) -> i32 {
 
     if let Some(path) = &args.replay {
         return replay_file(&ctx, path, true);
+    }
+    if let Some((target, secs)) = &args.fuzz_only {
+        let started = Instant::now();
+        let mut report = vcore::core::Report::default();
+        vcore::fuzzing::campaign(&ctx, &mut report, target, *secs);
+        for n in &report.notes {
+            println!("note: {}", n);
+        }
+        let meta = vcore::core::PropertyMeta {
+            level: "exploration",
+            rule: format!("libFuzzer campaign on target {} only (development aid)", target),
+            assumptions: vec![],
+            exhaustive: false,
+        };
+        let mut ctx2 = ctx.clone();
+        ctx2.verif_dir = std::env::temp_dir().join("vcheck-fuzz-only");
+        let _ = std::fs::create_dir_all(&ctx2.verif_dir);
+        return core::finish(&ctx2, &report, &meta, started);
     }
 
     let started = Instant::now();
